@@ -702,7 +702,20 @@ VARIANTS["C06"] = [
         "            chunk = np.r_[chunk, _sr[first_s:last_s, ncv:].T].T\n            chunk = chunk * mute_saturation[:, np.newaxis]\n")], ("D2",), "regression of F6"),
     V("whiten-all-columns", "fire", VO, [("                chunk[:, :ncv] = np.dot(chunk[:, :ncv], wrot)\n", "                chunk = np.dot(chunk, np.pad(wrot, ((0, chunk.shape[1] - ncv), (0, chunk.shape[1] - ncv))))\n")], ("D2",), ""),
     V("sync-rows-shifted", "fire", VO, [("chunk = np.r_[chunk, _sr[first_s:last_s, ncv:].T].T", "chunk = np.r_[chunk, _sr[first_s + 1:last_s + 1, ncv:].T].T")], ("D2", "D1"), ""),
-    V("saturation-bounds", "fire", VO, [("            _saturation[first_s:last_s] = saturated_samples\n", "            _saturation[first_s + SAMPLES_TAPER:last_s] = saturated_samples[SAMPLES_TAPER:]\n")], ("D3",), ""),
+    V("saturation-bounds", "fire", VO, [("                _saturation[first_s:last_s] = saturated_samples\n", "                _saturation[first_s + SAMPLES_TAPER:last_s] = saturated_samples[SAMPLES_TAPER:]\n")], ("D3",), ""),
+    V("saturation-file-loaded-unconditionally", "fire", VO, [("        _saturation = np.load(file_saturation, mmap_mode=\"r+\") if compute_rms else None\n", "        _saturation = np.load(file_saturation, mmap_mode=\"r+\")\n")], ("D5",),
+      "regression of F14: only with compute_rms=False - NameError on a free variable bound under `if compute_rms:`"),
+    V("saturation-written-unconditionally", "fire", VO, [("            if compute_rms:\n                _saturation[first_s:last_s] = saturated_samples\n", "            _saturation[first_s:last_s] = saturated_samples\n")], ("D5",),
+      "only with compute_rms=False: the memmap is None"),
+    V("rms-offset-bound-only-when-appending", "fire", VO, [("        else:\n            rms_offset = 0\n            time_offset = 0\n            t0 = 0\n", "        else:\n            time_offset = 0\n            t0 = 0\n")], ("D5",),
+      "only in a fresh (non-append) run: rms_offset unbound in the worker"),
+    V("nbatch-guard-removed", "fire", VO, [("    if NBATCH <= 2 * SAMPLES_TAPER:\n        raise ValueError(f\"nbatch must be larger than the two taper margins ({2 * SAMPLES_TAPER} samples), got {NBATCH}\")\n", "")], ("D6",),
+      "regression of F13: only with nbatch <= 2048 - the batch loop never ends"),
+    V("nbatch-guard-admits-zero-stride", "fire", VO, [("    if NBATCH <= 2 * SAMPLES_TAPER:\n", "    if NBATCH < 2 * SAMPLES_TAPER:\n")], ("D6",), "nbatch == 2048 exactly: stride 0"),
+    V("nbatch-guard-one-taper", "fire", VO, [("    if NBATCH <= 2 * SAMPLES_TAPER:\n", "    if NBATCH <= SAMPLES_TAPER:\n")], ("D6",), "1024 < nbatch <= 2048 still loops forever"),
+    V("twin-nbatch-guard-assert", "twin", VO, [("    if NBATCH <= 2 * SAMPLES_TAPER:\n        raise ValueError(f\"nbatch must be larger than the two taper margins ({2 * SAMPLES_TAPER} samples), got {NBATCH}\")\n", "    assert NBATCH - 2 * SAMPLES_TAPER >= 1, \"nbatch too small\"\n")], (), ""),
+    V("twin-nbatch-guard-flipped", "twin", VO, [("    if NBATCH <= 2 * SAMPLES_TAPER:\n", "    if not (2 * SAMPLES_TAPER < NBATCH):\n")], (), ""),
+    V("twin-saturation-guard-in-worker-branch", "twin", VO, [("        _saturation = np.load(file_saturation, mmap_mode=\"r+\") if compute_rms else None\n", "        _saturation = None\n        if compute_rms:\n            _saturation = np.load(file_saturation, mmap_mode=\"r+\")\n")], (), ""),
     V("range-one-less", "fire", VO, [("        delayed(my_function)(i, nprocesses) for i in range(nprocesses)\n", "        delayed(my_function)(i, nprocesses) for i in range(nprocesses - 1)\n")], ("D4",), ""),
     V("nchunk-wrong", "fire", VO, [("        delayed(my_function)(i, nprocesses) for i in range(nprocesses)\n", "        delayed(my_function)(i, nprocesses + 1) for i in range(nprocesses)\n")], ("D4",),
       "no worker believes it is the last: the tail after nprocesses*CHUNK_SIZE is never written"),
